@@ -38,3 +38,5 @@ package ext
 //@   modifies buffer.*
 //@   modifies uint8
 //@   ensures blen(recv) == old(blen(recv)) + len(p) && bobj(recv) > 0
+
+//@ iface Buffer.Free
